@@ -15,9 +15,9 @@ pub struct BuildCheck {
 
 fn n_programs(id: &str, tier: Tier) -> u64 {
 	match (id, tier) {
-		("C19", Tier::Quick) => 600,
+		("C19", Tier::Quick) => 3_000,
 		("C19", Tier::Thorough) => 30_000,
-		(_, Tier::Quick) => 400,
+		(_, Tier::Quick) => 1_200,
 		(_, Tier::Thorough) => 12_000,
 	}
 }
@@ -397,7 +397,7 @@ impl Check for BuildCheck {
 		if self.id == "C20" {
 			let inner: Vec<(&str, Vec<&str>)> = vec![
 				("period_type_u16", vec!["C01", "C02", "C04", "C14"]),
-				("value_type_f32", vec!["C01", "C02", "C03", "C04", "C14"]),
+				("value_type_f32", vec!["C01", "C02", "C03", "C04", "C14", "C05", "C06", "C15"]),
 			];
 			for (set, checks) in inner {
 				stats.fault(&format!("build:{set}:release"));
@@ -414,7 +414,8 @@ impl Check for BuildCheck {
 						.arg(c)
 						.arg(tier.name())
 						.env("VERIF_NO_EVIDENCE", "1")
-						.env("VERIF_RUNS_DIV", if tier == Tier::Quick { "4" } else { "2" })
+						// the indicator references are cheap: full budget; the method checks a quarter / half of theirs
+						.env("VERIF_RUNS_DIV", if matches!(c, "C05" | "C06") { "1" } else if tier == Tier::Quick { "4" } else { "2" })
 						.env("VERIF_SEED", seed.to_string())
 						.env("VERIF_DIR", dir.to_string_lossy().to_string())
 						.output();
